@@ -21,10 +21,15 @@ type copts struct {
 	t0               *sparse.Vector
 	flat, leaders    int
 	maxI, minI, freq *int
-	res              *sparse.Vector // WithResultIn: a separate, pre-filled destination vector
-	aliasT0          bool           // WithResultIn(v) and WithInitialTrust(v) on the SAME vector (the gRPC server's warm start)
-	decoy            []int          // overridden options placed EARLIER in the option list (functional options: the last setting of a field wins)
+	res              *sparse.Vector       // WithResultIn: a separate, pre-filled destination vector
+	aliasT0          bool                 // WithResultIn(v) and WithInitialTrust(v) on the SAME vector (the gRPC server's warm start)
+	decoy            []int                // overridden options placed EARLIER in the option list (functional options: the last setting of a field wins)
+	useIters         bool                 // maxI == minI are given through the ONE option WithIterations(n) (not as two options)
+	stats            *basic.FlatTailStats // a caller-owned statistics object (possibly used by an earlier Compute already)
 }
+
+// the vector returned by the last observed Compute that ended without error (for warm restarts)
+var lastComputeResult *sparse.Vector
 
 func (o copts) goOpts(stats *basic.FlatTailStats) []basic.ComputeOpt {
 	opts := []basic.ComputeOpt{basic.WithFlatTailStats(stats), basic.WithFlatTail(o.flat), basic.WithFlatTailNumLeaders(o.leaders)}
@@ -54,11 +59,15 @@ func (o copts) goOpts(stats *basic.FlatTailStats) []basic.ComputeOpt {
 	if o.res != nil && !(o.aliasT0 && o.t0 != nil) {
 		opts = append(opts, basic.WithResultIn(cloneVec(o.res)))
 	}
-	if o.maxI != nil {
-		opts = append(opts, basic.WithMaxIterations(*o.maxI))
-	}
-	if o.minI != nil {
-		opts = append(opts, basic.WithMinIterations(*o.minI))
+	if o.useIters && o.maxI != nil && o.minI != nil && *o.maxI == *o.minI {
+		opts = append(opts, basic.WithIterations(*o.maxI))
+	} else {
+		if o.maxI != nil {
+			opts = append(opts, basic.WithMaxIterations(*o.maxI))
+		}
+		if o.minI != nil {
+			opts = append(opts, basic.WithMinIterations(*o.minI))
+		}
 	}
 	if o.freq != nil {
 		opts = append(opts, basic.WithCheckFreq(*o.freq))
@@ -158,7 +167,10 @@ func observeComputeOnce(w *W, c *sparse.Matrix, p *sparse.Vector, a, e float64, 
 	logger := zerolog.New(sink).Level(zerolog.TraceLevel)
 	ctx, cancel := context.WithCancel(logger.WithContext(context.Background()))
 	defer cancel()
-	var stats basic.FlatTailStats
+	statsP := &basic.FlatTailStats{}
+	if o.stats != nil {
+		statsP = o.stats
+	}
 	type res struct {
 		t   *sparse.Vector
 		err error
@@ -168,7 +180,7 @@ func observeComputeOnce(w *W, c *sparse.Matrix, p *sparse.Vector, a, e float64, 
 	cc, pc := cloneCSR(c), cloneVec(p)
 	go func() {
 		var r res
-		r.pan = safely(func() { r.t, r.err = basic.Compute(ctx, cc, pc, a, e, o.goOpts(&stats)...) })
+		r.pan = safely(func() { r.t, r.err = basic.Compute(ctx, cc, pc, a, e, o.goOpts(statsP)...) })
 		ch <- r
 	}()
 	var r res
@@ -192,6 +204,8 @@ func observeComputeOnce(w *W, c *sparse.Matrix, p *sparse.Vector, a, e float64, 
 		w.Str("err").Str(errClass(r.err))
 		return "err"
 	}
+	stats := *statsP
+	lastComputeResult = cloneVec(r.t)
 	w.Str("ok").Vec(r.t).Int(sink.iters).Int(sink.checks).Int(stats.Length).Int(stats.Threshold).F(stats.DeltaNorm)
 	if stats.Ranking == nil {
 		w.Int(0)
@@ -281,6 +295,7 @@ func runComputeProps(prop string) func(h *H) {
 				if g.intn(2) == 0 {
 					kk := g.intn(12) + 1
 					o.maxI, o.minI = ip(kk), ip(kk) // WithIterations
+					o.useIters = g.intn(2) == 0
 					g.count("fixed-iterations")
 				} else {
 					o.maxI = ip(g.intn(12) + 1)
@@ -293,7 +308,7 @@ func runComputeProps(prop string) func(h *H) {
 			case "C05":
 				switch g.intn(10) {
 				case 0: // invalid parameter values, one at a time
-					which := g.pick("alpha<0", "alpha>1", "eps0", "eps<0", "freq0", "freq<0", "max<0", "min0", "min<0", "pdim", "t0dim", "nonsquare", "empty")
+					which := g.pick("alpha<0", "alpha>1", "eps0", "eps<0", "freq0", "freq<0", "max<0", "min0", "min<0", "pdim", "t0dim", "nonsquare", "empty", "iterations0", "iterations<0", "iterations0")
 					g.count("invalid:" + which)
 					switch which {
 					case "alpha<0":
@@ -314,6 +329,10 @@ func runComputeProps(prop string) func(h *H) {
 						o.minI = ip(0)
 					case "min<0":
 						o.minI = ip(-3)
+					case "iterations0": // WithIterations(0): a fixed count of zero iterations is min = 0, refused
+						o.maxI, o.minI, o.useIters = ip(0), ip(0), true
+					case "iterations<0":
+						o.maxI, o.minI, o.useIters = ip(-2), ip(-2), true
 					case "pdim":
 						p.Dim++
 					case "t0dim":
@@ -400,10 +419,27 @@ func runComputeProps(prop string) func(h *H) {
 				}
 				g.count("overridden-earlier-options")
 			}
+			shared := (prop == "C18" || prop == "C05") && g.intn(3) == 0
+			if shared {
+				o.stats = &basic.FlatTailStats{}
+			}
 			w := h.line(prop, "compute").creq(c, p, a, e, o)
 			oc := observeCompute(w, c, p, a, e, o, wd)
 			outcomes[oc]++
 			h.emit(w)
+			if shared && oc == "ok" && lastComputeResult != nil && lastComputeResult.Dim == dim {
+				// a second Compute handed the SAME statistics object, warm-started from the result of the first
+				// (its first checked ranking is the one the first run ended with): the statistics are those of
+				// this run alone, as if the object were fresh
+				o2 := o
+				o2.t0 = cloneVec(lastComputeResult)
+				basic.CanonicalizeTrustVector(o2.t0)
+				o2.aliasT0, o2.res = false, nil
+				g.count("stats-object-reused-for-a-warm-restart")
+				w2 := h.line(prop, "compute").creq(c, p, a, e, o2)
+				outcomes[observeCompute(w2, c, p, a, e, o2, wd)]++
+				h.emit(w2)
+			}
 		}
 		h.notes["outcomes"] = outcomes
 		if prop == "C02" {
